@@ -27,7 +27,7 @@ try:
 except ImportError:
     tqdm = None
 
-from emg3d import io, solver, utils
+from emg3d import electrodes, io, solver, utils
 
 
 def process_map(fn, *iterables, max_workers, **kwargs):
@@ -235,7 +235,7 @@ def layered(inp):
         **empymod_opts,
         #
         # Source properties, same for all receivers.
-        'src': src.coordinates,
+        'src': _get_src_coordinates(src),
         'msrc': src.xtype != 'electric',
         'strength': src.strength,
         #
@@ -351,6 +351,42 @@ def _empymod_fwd(cond_h, cond_v, empymod_inp):
     from empymod import bipole
     aniso = None if cond_v is None else np.sqrt(cond_h/cond_v)
     return bipole(res=1/cond_h, aniso=aniso, **empymod_inp)
+
+
+def _get_src_coordinates(src):
+    """Returns the source coordinates in a format accepted by empymod.
+
+    Finite dipoles are handed over as (x1, x2, y1, y2, z1, z2), independent of
+    the format they were defined with: empymod takes the format (x, y, z,
+    azimuth, elevation) as an infinitesimal small dipole (the ``length`` of the
+    dipole would be lost), and it does not know the format [[x1, y1, z1], [x2,
+    y2, z2]].
+
+    Parameters
+    ----------
+    src : Tx*
+        Any dipole or point source of the available sources, e.g.,
+        :class:`emg3d.electrodes.TxElectricDipole`.
+
+    Returns
+    -------
+    coordinates : ndarray
+        Source coordinates for :func:`empymod.model.bipole`.
+
+    """
+    coordinates = np.asarray(src.coordinates, dtype=float)
+
+    if isinstance(src, electrodes.Dipole):
+
+        # Format (x, y, z, azimuth, elevation) [and length].
+        if coordinates.shape == (5, ):
+            coordinates = electrodes.point_to_dipole(coordinates, src.length)
+
+        # Format [[x1, y1, z1], [x2, y2, z2]] to (x1, x2, y1, y2, z1, z2).
+        if coordinates.shape == (2, 3):
+            coordinates = coordinates.ravel('F')
+
+    return coordinates
 
 
 def _get_points(method, src, rec):
